@@ -3,6 +3,7 @@ import subprocess
 
 import build
 import fvrun
+import mtindep
 import optrun
 import verdict
 
@@ -14,7 +15,9 @@ RULE = ("ownership histories: (Q) pool of type-erased owning pointers holding ob
         "depth 4 (quick) / 5 (thorough), seeded random histories of length 40 over 4 slots; (O) pool of optionals - "
         "assign lvalue/rvalue, construct, copy-construct, copy-assign (incl. from empty and self), default-construct "
         "- exhaustive over 2 slots to depth 5 (quick) / 6, random over 3 slots; histories are enumerated by index, "
-        "all distinct; distinct_nontrivial = histories executed (each >= 4 operations)")
+        "all distinct (payload types of 12, 76 and 4804 bytes); a concurrent phase (lib/mtindep.py: 2-16 threads creating, "
+        "moving and destroying thread-private wrappers under ThreadSanitizer; live-object balance and serial results); "
+        "distinct_nontrivial = histories executed (each >= 4 operations)")
 
 
 def plan(exe, tier):
@@ -62,6 +65,10 @@ def run(tier, replay=None):
     if replay:
         with open(replay) as fh:
             case = json.load(fh)["case"]
+        if case.get("phase") == "concurrent-independent-use":
+            import collections
+            mtindep.replay(run_, case, collections.Counter())
+            return run_.finish(10, 1, RULE)
         exe = build.build_exe("gasan", ["ownhist.cpp"])
         p = subprocess.run([exe, case["type"], "seq", str(case["cap"]), case["seq"]], capture_output=True,
                            env=fvrun._env())
@@ -113,6 +120,8 @@ def run(tier, replay=None):
                 samples.append(s)
     for s in samples:
         run_.sample(s, limit=5)
+    # owning wrappers and containers created, moved and destroyed by 2-16 threads at the same time
+    mtindep.phase(run_, "own", tier, stats)
     run_.coverage["counters"] = dict(stats)
     run_.coverage["builds"] = tags
     for need in ("self-moves", "moves-from-empty", "vector-reallocations", "assign-empty", "self-assign"):
